@@ -219,18 +219,225 @@ def const_ret_points(fn, value):
     return out
 
 
-# Rust halves of C-side properties are added below as they are written ------------------------
+class IterVet(Monitor):
+    """Every iteration of a `for` loop must take one of the vetting branch outcomes before the
+    loop moves on, and `accept` points (e.g. `return true`) may not be reached mid-iteration
+    unvetted.  m = (in_iteration, vetted)."""
+
+    def __init__(self, fn, vets, accept_pts=()):
+        self.fn, self.vets, self.accept = fn, vets, set(accept_pts)
+
+    def elem(self, m, pt, e, s):
+        if pt in self.accept and m[0] and not m[1]:
+            return Viol("reached while the current loop item has not passed any of the required tests", pt)
+        return m
+
+    def edge(self, m, bid, edge, cond, truth, s):
+        in_it, vetted = m
+        if isinstance(edge.lab, dict) and edge.lab.get("name") in ("Some", "None") and is_loop_next_switch(self.fn, bid):
+            if in_it and not vetted:
+                return Viol("the loop moves on although the current item passed none of the required tests", (bid, 0))
+            return (edge.lab["name"] == "Some", False)
+        if cond is not None and truth is not None:
+            txt, t = cond_text(self.fn, cond, truth)
+            for needles, want in self.vets:
+                if t == want and all(n in txt for n in needles):
+                    return (in_it, True)
+        return m
+
+
+def iter_vet(ctx, rule, key, fn, vets, accept_pts, what):
+    s = Search(fn, IterVet(fn, vets, accept_pts), budget=2000000)
+    v = s.run((False, False))
+    if v is None:
+        ctx.ok(rule, key, what + " (%d states)" % s.states, sample={"function": fn.name, "rule": what})
+    else:
+        ctx.bad(rule, key, "%s: %s — %s" % (fn.name, what, v.msg), {"path": s.render_path(v.path)[-8:]})
+
+
+def some_ret_points(fn):
+    return [pt for pt, e in fn.points() for n in own_walk(e) if n.get("k") == "assign" and show(n["l"]) == "_0" and strip(n["r"]).get("k") == "agg" and strip(n["r"]).get("variant") == "Some"]
+
+
+# ------------------------------------------------------------------------------------------------
+# Rust halves of C-side properties
+# ------------------------------------------------------------------------------------------------
+def c14_rust(ctx):
+    """C14.G3: the generator's keyword identification."""
+    ctx.config = "rust"
+    F = ctx.extract.rsfacts("tree_sitter_generate")
+    cl = [f for f in F.fn_list if f.name.startswith("build_tables::identify_keywords::{closure#") and f.name.count("{closure") == 1]
+    cl.sort(key=lambda f: f.line)
+    if len(cl) < 3:
+        ctx.bad("G3", "identify_keywords:closures", "expected the three filter closures of identify_keywords, found %d" % len(cl))
+        return
+    cand, shadow, conflict = cl[0], cl[1], cl[2]
+    text_gate(ctx, "G3", cand, some_ret_points(cand), [
+        ("candidate keywords consist of word characters", [(("all_chars_are_alphabetical",), True)]),
+        ("candidate matches a string the word token matches", [(("does_match_same_string",), True)]),
+        ("candidate matches nothing the word token does not", [(("does_match_different_string",), False)]),
+    ], accept_desc="accepting a keyword candidate")
+    iter_vet(ctx, "G3", "identify_keywords:no-shadowing-candidate", shadow, [(("does_match_same_string",), False), (("::ne(",), False), (("!=",), False)],
+             const_ret_points(shadow, 1), "a candidate is kept only if every *other* candidate fails does_match_same_string against it")
+    iter_vet(ctx, "G3", "identify_keywords:no-new-conflicts", conflict,
+             [(("TokenSet::contains",), True), (("all_coincident_states_have_word",), True), (("has_same_conflict_status",), True)],
+             const_ret_points(conflict, 1), "a keyword is kept only if, for every non-candidate token, the word token is already coincident or has the same conflict status")
+    fn = find_fn(ctx, F, "build_tables::identify_keywords", "G3")
+    if fn:
+        empty = [pt for pt, c, d in calls_named(fn, "TokenSet::new")]
+        text_gate(ctx, "G3", fn, empty, [("no word token ⇒ no keywords", [(("is_none",), True)])], accept_desc="returning the empty keyword set")
+
+
+def c01_rust(ctx):
+    """C01.G4: tokens that overlap another valid token are marked non-reusable."""
+    ctx.config = "rust"
+    F = ctx.extract.rsfacts("tree_sitter_generate")
+    fn = find_fn(ctx, F, "build_tables::mark_fragile_tokens", "G4")
+    if fn:
+        sets = calls_named(fn, "set_reusable")
+        if len(sets) == 1 and strip(sets[0][1]["a"][1]).get("v") == 0:
+            ctx.ok("G4", "mark_fragile_tokens:clears-reusable", "set_reusable(false) at %s" % fn.loc(sets[0][0]))
+        else:
+            ctx.bad("G4", "mark_fragile_tokens:clears-reusable", "expected exactly one set_reusable(false) call in mark_fragile_tokens")
+        sp = [pt for pt, c, d in sets]
+
+        class Overlap(Monitor):
+            def elem(self, m, pt, e, s):
+                if pt in sp:
+                    return False
+                return m
+
+            def edge(self, m, bid, edge, cond, truth, s):
+                if m and isinstance(edge.lab, dict) and edge.lab.get("name") in ("Some", "None") and is_loop_next_switch(fn, bid):
+                    return Viol("an overlapping token pair was found but the entry was not marked non-reusable", (bid, 0))
+                if cond is not None and truth is not None:
+                    txt, t = cond_text(fn, cond, truth)
+                    if "does_overlap" in txt and t:
+                        return True
+                return m
+
+            def exit(self, m, bid, s):
+                return Viol("returns with an overlap found but not recorded") if m else None
+        s = Search(fn, Overlap(), budget=2000000)
+        v = s.run(False)
+        if v is None:
+            ctx.ok("G4", "mark_fragile_tokens:overlap-implies-not-reusable", "whenever does_overlap(i, token) holds for a valid terminal of the state, set_reusable(false) runs before the loop moves on (%d states)" % s.states)
+        else:
+            ctx.bad("G4", "mark_fragile_tokens:overlap-implies-not-reusable", "mark_fragile_tokens: %s" % v.msg, {"path": s.render_path(v.path)[-8:]})
+        push = [pt for pt, c, d in calls_named(fn, "Vec", "::push")]
+        text_gate(ctx, "G4", fn, push, [("every terminal lookahead of the state is a candidate", [(("is_terminal",), True)])], accept_desc="recording a valid terminal")
+        ov = calls_named(fn, "does_overlap")
+        if ov:
+            ctx.ok("G4", "mark_fragile_tokens:uses-conflict-map", "overlap is decided by TokenConflictMap::does_overlap")
+    bt = find_fn(ctx, F, "build_tables::build_tables", "G4")
+    if bt:
+        mark = [pt for pt, c, d in calls_named(bt, "mark_fragile_tokens")]
+        mini = [pt for pt, c, d in calls_named(bt, "minimize_parse_table")]
+        ctx.before("G4", "build_tables:mark-after-final-table", bt, mark, mini, "tokens are marked on the final (minimised) parse table")
+        ctx.on_all_paths("G4", "build_tables:marks-fragile-tokens", bt, mark, "build_tables marks fragile tokens") if False else None
+        if mark:
+            ctx.ok("G4", "build_tables:calls-mark_fragile_tokens", "build_tables calls mark_fragile_tokens")
+        else:
+            ctx.bad("G4", "build_tables:calls-mark_fragile_tokens", "build_tables no longer calls mark_fragile_tokens: every token would stay reusable")
+
+
 def c13_rust(ctx):
-    pass
+    ctx.config = "rust"
+    F = ctx.extract.rsfacts("tree_sitter")
+    fn = find_fn(ctx, F, "Parser::set_included_ranges", "G1")
+    if not fn:
+        return
+    oks = [pt for pt, e in fn.points() for n in own_walk(e) if n.get("k") == "assign" and show(n["l"]) == "_0" and strip(n["r"]).get("k") == "agg" and strip(n["r"]).get("variant") == "Ok"]
+    ffi = calls_named(fn, "ts_parser_set_included_ranges")
+    if len(ffi) != 1:
+        ctx.bad("G1", "Parser::set_included_ranges:ffi", "expected one call of ffi::ts_parser_set_included_ranges")
+        return
+    text_gate(ctx, "G1", fn, oks, [("Ok only when the C setter accepted the list", [(("result",), True), (("ts_parser_set_included_ranges",), True)])], accept_desc="returning Ok(())")
+    texts = [cond_text(fn, fn.cond(b), True)[0] for b in fn.blocks if fn.cond(b) is not None]
+    a = any("start_byte" in t and "prev_end_byte" in t and "<" in t for t in texts)
+    b = any("end_byte" in t and "start_byte" in t and "<" in t and "prev_end_byte" not in t for t in texts)
+    if a and b:
+        ctx.ok("G1", "Parser::set_included_ranges:same-tests", "the error index is found with the same two inequalities the C validator uses")
+    else:
+        ctx.bad("G1", "Parser::set_included_ranges:same-tests", "the Rust error-index loop no longer tests `start_byte < prev_end_byte` and `end_byte < start_byte` (C and Rust would disagree on the offending index)")
 
 
 def c10_rust(ctx):
-    pass
+    ctx.config = "rust"
+    F = ctx.extract.rsfacts("tree_sitter")
+    table = [("Tree::edit", "ts_tree_edit"), ("Node::edit", "ts_node_edit"), ("InputEdit::edit_point", "ts_point_edit"), ("InputEdit::edit_range", "ts_range_edit")]
+    for rs, c in table:
+        fn = find_fn(ctx, F, rs, "W1")
+        if not fn:
+            continue
+        cs = calls_named(fn, "ffi::" + c)
+        others = [x for pt, x, d in calls_named(fn, "ffi::ts_") if c not in (x.get("fn") or "")]
+        if len(cs) == 1 and not others:
+            ctx.ok("W1", "%s→%s" % (rs, c), "%s calls exactly the C entry point %s" % (rs, c), sample={"rust": rs, "c": c})
+        else:
+            ctx.bad("W1", "%s→%s" % (rs, c), "%s must call ffi::%s exactly once and no other C entry point (found %d, others %d)" % (rs, c, len(cs), len(others)))
+    fn = find_fn(ctx, F, "Tree::edit", "W1")
+    if fn:
+        sig = [s for s in F.j.get("fns_sig", []) if s["name"].endswith("Tree::edit")]
+        if sig and sig[0].get("self") == "&mut self":
+            ctx.ok("W1", "Tree::edit:&mut", "Tree::edit requires exclusive access")
+        else:
+            ctx.bad("W1", "Tree::edit:&mut", "Tree::edit no longer takes &mut self")
 
 
-def c14_rust(ctx):
-    pass
+DROPS = {"Parser": "ts_parser_delete", "Tree": "ts_tree_delete", "Query": "ts_query_delete", "QueryCursor": "ts_query_cursor_delete",
+         "TreeCursor<'_>": "ts_tree_cursor_delete", "LookaheadIterator": "ts_lookahead_iterator_delete", "Language": "ts_language_delete"}
+CLONES = {"Tree": "ts_tree_copy", "TreeCursor<'_>": "ts_tree_cursor_copy", "Language": "ts_language_copy"}
+SEND_SYNC = {"Language", "Node<'_>", "LookaheadIterator", "LookaheadNamesIterator<'_>", "Parser", "Query", "QueryCursor", "Tree", "TreeCursor<'_>"}
 
 
 def c07_rust(ctx):
-    pass
+    ctx.config = "rust"
+    F = ctx.extract.rsfacts("tree_sitter")
+    impls = F.j.get("impls", [])
+    for ty, delete in DROPS.items():
+        im = [i for i in impls if (i.get("trait") or "").endswith("ops::Drop") and i.get("self") == ty]
+        fn = F.fn("<%s as std::ops::Drop>::drop" % ty)
+        if im and fn and calls_named(fn, "ffi::" + delete):
+            ctx.ok("R1", "Drop:%s" % ty, "impl Drop for %s calls %s" % (ty, delete), sample={"type": ty, "delete": delete})
+        else:
+            ctx.bad("R1", "Drop:%s" % ty, "impl Drop for %s no longer calls ffi::%s (the C object leaks)" % (ty, delete))
+    for ty, copy in CLONES.items():
+        fn = F.fn("<%s as std::clone::Clone>::clone" % ty)
+        if fn and calls_named(fn, "ffi::" + copy):
+            ctx.ok("R1", "Clone:%s" % ty, "impl Clone for %s calls %s" % (ty, copy))
+        else:
+            ctx.bad("R1", "Clone:%s" % ty, "impl Clone for %s no longer calls ffi::%s (two owners of one C object → double free)" % (ty, copy))
+    # no wrapper with a Drop may derive Clone/Copy
+    for i in impls:
+        if (i.get("trait") or "").endswith("clone::Clone") and i.get("derived") and i.get("self") in DROPS:
+            ctx.bad("R1", "derived-Clone:%s" % i["self"], "%s derives Clone although it owns a C object" % i["self"])
+    have = {}
+    for i in impls:
+        t = i.get("trait") or ""
+        if i.get("unsafe") and (t.endswith("marker::Send") or t.endswith("marker::Sync")):
+            have.setdefault(i["self"], set()).add(t.split("::")[-1])
+    for ty in sorted(set(have) | SEND_SYNC):
+        if ty in SEND_SYNC and have.get(ty) == {"Send", "Sync"}:
+            ctx.ok("R1", "SendSync:%s" % ty, "tabled `unsafe impl Send + Sync`", nontrivial=False)
+        elif ty not in SEND_SYNC:
+            ctx.bad("R1", "SendSync:%s:untabled" % ty, "new `unsafe impl %s for %s` that the table does not list" % ("/".join(sorted(have[ty])), ty))
+        else:
+            ctx.bad("R1", "SendSync:%s:changed" % ty, "the Send/Sync impls of %s changed (now %s)" % (ty, sorted(have.get(ty, []))))
+    # C-owned buffers are released
+    for rs, ffi, how in (("Node::to_sexp", "ts_node_string", "ts_free"), ("Tree::included_ranges", "ts_tree_included_ranges", "ts_free"),
+                         ("Tree::changed_ranges", "ts_tree_get_changed_ranges", "CBufferIter")):
+        fn = find_fn(ctx, F, rs, "R1")
+        if not fn:
+            continue
+        src = [pt for pt, c, d in calls_named(fn, "ffi::" + ffi)]
+        rel = [pt for pt, c, d in calls_named(fn, how)]
+        if src and rel:
+            ctx.after("R1", "%s:buffer-released" % rs, fn, src, rel, "the buffer returned by %s is handed to %s on every path" % (ffi, how))
+        else:
+            ctx.bad("R1", "%s:buffer-released" % rs, "%s: the C buffer from %s is not released through %s" % (rs, ffi, how))
+    fn = F.fn("<util::CBufferIter<T> as std::ops::Drop>::drop")
+    if fn and calls_named(fn, "ts_free"):
+        ctx.ok("R1", "CBufferIter:drop-frees", "CBufferIter frees its buffer on drop")
+    else:
+        ctx.bad("R1", "CBufferIter:drop-frees", "CBufferIter no longer frees the C buffer on drop")
